@@ -85,16 +85,28 @@ def make_case(seed):
                 n += nc + gap
         secs.append(s)
     d = gen.Diff(secs)
+    r3 = engine.item_rng(engine.stable_hash((seed, 'c05-plain')))
+    meta['plain_stripped'] = False
+    if r3.random() < 0.08 and all(s.kind == 'modified' for s in secs):
+        # `diff -u` output (no 'diff --git' line) whose empty unchanged lines lost their blank (diff -u --suppress-blank-empty,
+        # or trailing white space stripped on the way): still lines of both files, numbered like any unchanged line
+        for s in secs:
+            for h in s.hunks:
+                h.lines = [(k, '' if k == ' ' and r3.random() < 0.5 else t) for k, t in h.lines]
+        d = gen.Diff(secs, fmt='plain')
+        meta['plain_stripped'] = True
     mode = 'pipe'
     W = meta.get('width', 80)
     # input coloured by the producer in other than git's default red/green (git diff --color-moved, a custom palette): delta
     # keeps such lines as they are ("raw" lines), on another path through the painters. The colours used here are the
     # reserved ones of the same line kinds, so that the rows are classified as usual
-    meta['raw_colored'] = (not meta.get('markers')) and rng.random() < 0.2
+    meta['raw_colored'] = (not meta.get('markers')) and rng.random() < 0.2 and not meta['plain_stripped']
     return d, opts, meta, view, mode, W
 
 
 def input_bytes(d, meta, seed):
+    if meta.get('plain_stripped'):
+        return ('\n'.join('' if l == ' ' else l for l in d.lines()) + '\n').encode()
     if not meta.get('raw_colored'):
         return d.text().encode()
     rng = engine.item_rng(engine.stable_hash((seed, 'c05-raw')))
@@ -279,7 +291,7 @@ def run_item(item):
     if res.rc != 0:
         return inconclusive('exit %d: %s' % (res.rc, res.err[:120]))
     counters = {'numbers_compared': 0, 'blank_fields_checked': 0, 'hunk_header_numbers': 0, 'hunk_header_paths': 0}
-    sets = {'views': [view], 'format_classes': [meta['fmt_class']], 'option_classes': meta['classes'] + (['raw-colored-input'] if meta.get('raw_colored') else []),
+    sets = {'views': [view], 'format_classes': [meta['fmt_class']], 'option_classes': meta['classes'] + (['raw-colored-input'] if meta.get('raw_colored') else []) + (['plain-diff-stripped-empty-context'] if meta.get('plain_stripped') else []),
             'starts': sorted({str(h.new_start) for s in d.sections for h in s.hunks})[:6]}
     if view == 'sbs':
         bad = check_sbs(d, meta, W, res.out, counters)
